@@ -262,12 +262,15 @@ def _pattern_sets():
     return sets, extra
 
 
-def _inputs(s, with_lists):
-    """The containers in which the text s is handed to lex."""
+def _inputs(s, with_lists, thin=False):
+    """The containers in which the text s is handed to lex.  thin: skip [s] when s has no CR/LF
+    (same single line as the str input; deterministic thinning of the longest exhaustive layer)."""
     yield 'str', s
     if with_lists:
-        yield 'one-line-list', [s]
-        if '\n' in s or '\r' in s:
+        eol = '\n' in s or '\r' in s
+        if eol or not thin:
+            yield 'one-line-list', [s]
+        if eol:
             yield 'keepends-list', ref_split_keepends(s)
             yield 'split-list', ref_split(s)
 
@@ -314,7 +317,8 @@ def _work_inner(task, per_call_alarm=False):
         res['n'] += 1
         if any(c not in WS for c in s):
             res['nontrivial'] += 1
-        for container, inp in _inputs(s, with_lists):
+        thin = kind == 'exh' and _G.get('thin_at') is not None and len(s) >= _G['thin_at']
+        for container, inp in _inputs(s, with_lists, thin):
             for label, alts, order, rx in sets:
                 case = {'input': inp, 'pattern': label}
                 try:
@@ -398,6 +402,7 @@ def run(chk):
     _G['lexer'] = _lexer
     _G['sets'], _G['extra'] = _pattern_sets()
     _G['exe'] = str(common.build_driver('lex'))
+    _G['thin_at'] = None if quick else maxlen
     chk.distinct = _Counted()
 
     tasks = []
@@ -435,25 +440,29 @@ def run(chk):
 
     # heavy tasks first, then parallel map (one task per chunk so that all cores are used)
     results = common.pmap(_work, tasks, chunk=1) if len(tasks) >= 2 else [_work(t) for t in tasks]
-    picked = []
+    picked, fails, mism = [], [], []
     for r in results:
         chk.evaluations += r['n']
         chk.distinct.extra += r['nontrivial']
         chk.corr_cases += r['corr']
         for k, v in r['stats'].items():
             chk.stat(k, v)
-        for f in r['failures']:
-            if len(chk.failures) < 200:
-                chk.fail(f['key'], f['what'], f['case'])
-        for m in r['mismatches']:
-            if len(chk.mismatches) < 50:
-                chk.mismatch(m['what'], m['case'], m['impl'], m['model'])
+        fails += r['failures']
+        mism += r['mismatches']
         for kind, s in r['samples']:
             if sum(1 for k, _ in picked if k == kind) < 4:
                 picked.append((kind, s))
     for _, s in picked:
         chk.sample(s)
-    chk.notes.append(f'bounded-exhaustive up to length {maxlen} (two shipped patterns) / {maxlen_extra} (two-class patterns)')
+    # report the smallest failing inputs first (each worker already capped its own list)
+    size = lambda x: (len(x['case']['input']) if isinstance(x['case']['input'], str)
+                      else 1 + sum(len(l) + 1 for l in x['case']['input']), str(x['case']))
+    for f in sorted(fails, key=size)[:200]:
+        chk.fail(f['key'], f['what'], f['case'])
+    for m in sorted(mism, key=size)[:50]:
+        chk.mismatch(m['what'], m['case'], m['impl'], m['model'])
+    chk.notes.append(f'bounded-exhaustive up to length {maxlen} (two shipped patterns) / {maxlen_extra} (two-class patterns)'
+                     + ('' if quick else f'; at length {maxlen} the container [s] is used only for texts holding CR or LF'))
     chk.assumptions.append('alternation orders of PENMAN_RE / TRIPLE_RE are those of Impl.Lexer.PENMAN_ALTS / TRIPLE_ALTS '
                            '(any change shows up as a correspondence mismatch)')
 
